@@ -40,10 +40,28 @@ def reading(net, items, which=None):
         yield it
 
 
+def reading_then_failing(net, items, bad):
+    """Like `reading`, but the last row is malformed / the generator raises after some items went in (a
+    typo in a name table): the call fails half-way and the user carries on with the same network."""
+    for it in items:
+        for m in netmon.MEMOS:
+            getattr(net, m)
+        yield it
+    if bad == "raise":
+        raise KeyError("no such node in the table")
+    yield bad
+
+
 def alphabet(U):
-    """~50 mutating calls as (kind, callable(net), description)."""
+    """~55 mutating calls as (kind, callable(net), description)."""
     N, L, O, D = U.N, U.L, U.O, U.D
     ops = []
+    ops.append(("add_nodes!", lambda net: net.add_nodes(reading_then_failing(net, [N[0], N[1]], "raise")),
+                ("add_nodes", "reading generator that raises after 0,1")))
+    ops.append(("add_links!", lambda net: net.add_links(reading_then_failing(net, [(N[0], L[0], N[1]), (N[1], L[1], N[2])], "raise")),
+                ("add_links", "reading generator that raises after 0a1,1b2")))
+    ops.append(("add_links!", lambda net: net.add_links(reading_then_failing(net, [(N[2], L[2], N[0])], (N[0], L[0]))),
+                ("add_links", "reading generator with a malformed last row")))
     ops.append(("add_nodes", lambda net: net.add_nodes(reading(net, N)), ("add_nodes", "generator reading the lookups 0,1,2")))
     ops.append(("add_links", lambda net: net.add_links(reading(net, [(N[0], L[0], N[1]), (N[1], L[1], N[2])])),
                 ("add_links", "generator reading the lookups 0a1,1b2")))
